@@ -177,6 +177,26 @@ example :
      e.coeff == 3 / 8 && UExpr.normF e.factors == [("kg", 1), ("m", -3)]
        && f.coeff == 1 / 5 && UExpr.normF f.factors == [("s", -1)]) = true := by decide +kernel
 
+/-- non-vacuity of `inBase_resolves_in_quantity_registry`: `6 kg` into galactic, once in the default
+    table and once in a table where `Msun` is re-valued (`registry.modify("Msun", 2)`): the hypotheses
+    hold, both results carry the expression `Msun`; the first has the default scale of `Msun`, the
+    second has scale 2 (≠ the default), and each number times ITS scale is the SI magnitude of `6 kg` —
+    the one system has no say in the value -/
+example :
+    (let t' : Lut Rat := Lut.set c10Lut "Msun" { scale := 2, dim := Dim.dMass, offset := 0, prefixable := false }
+     match findSystem Rat "galactic", mkUnit c10Pre c10Lut (UExpr.sym "kg"), mkUnit c10Pre t' (UExpr.sym "kg"),
+       c10Lut.find? "Msun" with
+     | some S, .ok u, .ok u', some ms =>
+       u'.dim == u.dim && !umMatches S u && !umMatches S u'
+       && (match checkEm c10Pre c10Lut c10Em S u, checkEm c10Pre t' c10Em S u' with | .ok none, .ok none => true | _, _ => false)
+       && (match inBase c10Pre c10Lut c10Em S u 6, inBase c10Pre t' c10Em S u' 6 with
+           | .ok (y, v), .ok (y', v') =>
+             v.expr.factors == [("Msun", 1)] && v'.expr.factors == [("Msun", 1)]
+               && v.scale == ms.scale && y * ms.scale == 6 * u.scale
+               && v'.scale == 2 && y' * 2 == 6 * u'.scale && ms.scale != 2
+           | _, _ => false)
+     | _, _, _, _ => false) = true := by decide +kernel
+
 end examples
 
 /-! ## general theorems -/
@@ -528,6 +548,31 @@ theorem inBase_counts_system_units (S : USys K) (hS : WF P pre t S) (u v : UnitV
       have := mkUnit_scale P laws pre t _ v hmk hpos w u.dim hw
       simp only [denote, hw, Option.some.injEq, Prod.mk.injEq] at hsc
       rw [this]; exact hsc.1
+
+omit laws in
+/-- **the result unit is resolved in the QUANTITY's registry.**  A unit system files expressions, not
+    values (`USys` carries no table; `UnitSystem.__getitem__` resolves them in the system's registry,
+    `get_base_equivalent` rebuilds the unit from the expression in `self.registry`).  For two quantities
+    of the same dimension living in registries `t` and `t'` (plain route, no short-cut) `in_base`
+    hands both the SAME expression `ex` — the one the system files or synthesises for that dimension —
+    and each result is that expression resolved in the table of ITS OWN quantity.  With `synth_scale`
+    / `inBase_counts_system_units` (whose table argument is this `t`) the scale of the result is
+    computed from the quantity's table, whatever another registry says about the system's symbols. -/
+theorem inBase_resolves_in_quantity_registry (t' : Lut K) (S : USys K) (u u' v v' : UnitV K)
+    (x x' y y' : K) (hd : u'.dim = u.dim)
+    (hc : checkEm pre t T S u = .ok none) (hc' : checkEm pre t' T S u' = .ok none)
+    (hm : umMatches S u = false) (hm' : umMatches S u' = false)
+    (h : inBase pre t T S u x = .ok (y, v)) (h' : inBase pre t' T S u' x' = .ok (y', v')) :
+    ∃ ex, S.lookup u.dim = .ok ex ∧ mkUnit pre t ex = .ok v ∧ mkUnit pre t' ex = .ok v' := by
+  obtain ⟨hcase, _, _⟩ := inBase_nonEm pre t T S u v x y hc h
+  obtain ⟨hcase', _, _⟩ := inBase_nonEm pre t' T S u' v' x' y' hc' h'
+  rcases hcase with ⟨hmm, _⟩ | ⟨_, ex, hl, hmk⟩
+  · rw [hm] at hmm; cases hmm
+  · rcases hcase' with ⟨hmm', _⟩ | ⟨_, ex', hl', hmk'⟩
+    · rw [hm'] at hmm'; cases hmm'
+    · rw [hd, hl] at hl'
+      cases hl'
+      exact ⟨ex, hl, hmk, hmk'⟩
 
 /-! ### the property itself, at the level of the model -/
 
